@@ -150,7 +150,7 @@ pub fn run(rep: &mut Report, thorough: bool) {
     crate::util::install_quiet_panic_hook();
     rep.rule = "histories of 2..5 dump requests on ONE writer under generated option sets, against the same quiescent target, with the blamed thread / principal address / crash context / target changed between requests through the public fields; after each request a fresh identically configured writer dumps the same target and the two images are compared in canonical form (modulo timestamp, RVAs and the running main thread); each reused image also goes through the strict decoder. distinct = hash(option set, history shape); non-trivial = >= 2 Ok dumps compared".into();
     let mut rng = Rng::new(rep.seed.wrapping_mul(191_919));
-    let ntargets = if thorough { 60 } else { 6 };
+    let ntargets = if thorough { 240 } else { 6 };
     let per_target = if thorough { 16 } else { 8 };
     for _ in 0..ntargets {
         let cfg = TargetCfg { sentinels: rng.range(1, 5) as usize, max_spinners: 0, heartbeats: 0, sleepers: 0, exiters: 0, names: true, regions: 3, elf_files: 1, fds: 3, stack_pages_max: 3, null_sp_threads: 1, big_region_pages: 0 };
